@@ -15,7 +15,7 @@
 //!   anything else     404 (fallback)
 //! pre-routing hook:  request header `x-hook: drop` -> 405 + Drop; `x-hook: dropclose` -> 405 with
 //!   `connection: close` + Drop; otherwise Proceed.
-use crate::interpose::{RECV_LOG_FD, RECV_MAX_LEN};
+use crate::interpose::{RECV_LOG_FD, RECV_MAX_LEN, RECV_PARKED};
 use crate::util::*;
 use khttp::{Headers, Method, PreRoutingAction, Server, Status};
 use std::io::{Read, Write};
@@ -60,6 +60,25 @@ pub fn build_server(max_head: usize) -> Server {
         h.set_connection_close();
         res.ok(&h, "bye")
     });
+    // connection: close announced on responses with an EMPTY body, through each of the handle's sending methods
+    b.route(Method::Get, "/closeempty/:how", |ctx, res| {
+        let mut h = Headers::new_nodate();
+        h.set_connection_close();
+        match ctx.params.get("how") {
+            Some("ok") => res.ok(&h, ""),
+            Some("send") => res.send(&Status::OK, &h, b""),
+            Some("send0") => res.send0(&Status::OK, &h),
+            Some("okr") => res.okr(&h, std::io::empty()),
+            _ => res.sendr(&Status::OK, &h, std::io::empty()),
+        }
+    });
+    // ... and with a body, through the reader variants
+    b.route(Method::Get, "/closer/:n", |ctx, res| {
+        let n: u64 = ctx.params.get("n").and_then(|s| s.parse().ok()).unwrap_or(0);
+        let mut h = Headers::new_nodate();
+        h.add("Connection", &b"keep-alive, Close"[..]);
+        res.sendr(&Status::OK, &h, std::io::repeat(b'x').take(n))
+    });
     b.route(Method::Get, "/err", |_ctx, _res| Err(std::io::Error::other("handler error")));
     b.route(Method::Get, "/errint", |_ctx, _res| {
         Err(std::io::Error::new(std::io::ErrorKind::Interrupted, "interrupted"))
@@ -84,6 +103,13 @@ pub fn build_server(max_head: usize) -> Server {
             let _ = res.send0(&Status::of(405), &h);
             PreRoutingAction::Drop
         }
+        // the hook answers with an empty body through `send` and announces close
+        Some(b"dropclosesend") => {
+            let mut h = Headers::new_nodate();
+            h.set_connection_close();
+            let _ = res.send(&Status::of(405), &h, b"");
+            PreRoutingAction::Drop
+        }
         _ => PreRoutingAction::Proceed,
     });
     b.build()
@@ -97,22 +123,41 @@ fn fionread(fd: i32) -> i32 {
 
 /// Reads one response (head, then body by content-length / chunked). Ok(None) = clean EOF before any byte.
 pub fn read_response(c: &mut TcpStream, pending: &mut Vec<u8>, timeout: Duration) -> Result<Option<(u16, bool, Vec<u8>)>, &'static str> {
+    read_response_idle(c, pending, timeout, &|| false)
+}
+
+/// As `read_response`, but gives up early (HANG) once `idle()` holds on two consecutive polls 15 ms apart with nothing
+/// arriving in between: `idle` is evidence that the server is waiting for the client (parked in a read with nothing left to
+/// read), so no further byte can come — a verdict that does not depend on how loaded the machine is.
+pub fn read_response_idle(c: &mut TcpStream, pending: &mut Vec<u8>, timeout: Duration, idle: &dyn Fn() -> bool) -> Result<Option<(u16, bool, Vec<u8>)>, &'static str> {
     let deadline = Instant::now() + timeout;
     let mut tmp = [0u8; 65536];
     let mut fill = |c: &mut TcpStream, pending: &mut Vec<u8>| -> Result<bool, &'static str> {
-        let left = deadline.saturating_duration_since(Instant::now());
-        if left.is_zero() {
-            return Err("HANG");
-        }
-        c.set_read_timeout(Some(left.max(Duration::from_millis(1)))).ok();
-        match c.read(&mut tmp) {
-            Ok(0) => Ok(false),
-            Ok(n) => {
-                pending.extend_from_slice(&tmp[..n]);
-                Ok(true)
+        let mut idle_seen = false;
+        loop {
+            let left = deadline.saturating_duration_since(Instant::now());
+            if left.is_zero() {
+                return Err("HANG");
             }
-            Err(e) if e.kind() == std::io::ErrorKind::WouldBlock || e.kind() == std::io::ErrorKind::TimedOut => Err("HANG"),
-            Err(_) => Ok(false), // reset: treat as closed
+            c.set_read_timeout(Some(left.min(Duration::from_millis(15)).max(Duration::from_millis(1)))).ok();
+            match c.read(&mut tmp) {
+                Ok(0) => return Ok(false),
+                Ok(n) => {
+                    pending.extend_from_slice(&tmp[..n]);
+                    return Ok(true);
+                }
+                Err(e) if e.kind() == std::io::ErrorKind::WouldBlock || e.kind() == std::io::ErrorKind::TimedOut => {
+                    if idle() {
+                        if idle_seen {
+                            return Err("HANG");
+                        }
+                        idle_seen = true;
+                    } else {
+                        idle_seen = false;
+                    }
+                }
+                Err(_) => return Ok(false), // reset: treat as closed
+            }
         }
     };
     // head
@@ -168,13 +213,17 @@ pub fn read_response(c: &mut TcpStream, pending: &mut Vec<u8>, timeout: Duration
     Ok(Some((status, close, body)))
 }
 
-/// `CONN max=<N> script=<step>,<step>,…` with steps `s:<hex>` (send one segment, then wait until the server
-/// has consumed it), `r` (read one response), `c` (half-close the sending side), `e` (expect EOF).
+/// `CONN max=<N> [rto=<ms>] script=<step>,<step>,…` with steps `s:<hex>` (send one segment, then wait until the server
+/// has consumed it), `r` (read one response), `c` (half-close the sending side), `e` (EOF or still open?), `w:<ms>`
+/// (the client stalls). `rto` = read time-out set on the accepted socket. "Still open" / "no response is coming" are
+/// decided from the server being parked in `recv` on the connection with nothing left to read, not from a short timer.
 pub fn conn(arg: &str) -> String {
     let mut max = 4096usize;
     let mut script = "";
     let mut warm = 0usize;
+    let mut rto = 0u64;
     for w in arg.split_whitespace() {
+        if let Some(v) = w.strip_prefix("rto=") { rto = v.parse().unwrap_or(0) }
         if let Some(v) = w.strip_prefix("max=") { max = v.parse().unwrap_or(4096) }
         if let Some(v) = w.strip_prefix("script=") { script = v }
         if let Some(v) = w.strip_prefix("warm=") { warm = v.parse().unwrap_or(0) }
@@ -198,7 +247,14 @@ pub fn conn(arg: &str) -> String {
     client.set_nodelay(true).ok();
     let (srv_stream, _) = listener.accept().unwrap();
     srv_stream.set_nodelay(true).ok();
+    if rto > 0 {
+        // what a connection set-up hook does in the README: reads on the accepted socket time out
+        srv_stream.set_read_timeout(Some(Duration::from_millis(rto))).ok();
+    }
     let srv_fd = srv_stream.as_raw_fd();
+    // (after the client's FIN the server's pending read returns 0 as soon as it is scheduled: a FIN does not show in FIONREAD)
+    let client_shut = std::sync::atomic::AtomicBool::new(false);
+    let idle = || !client_shut.load(Ordering::SeqCst) && RECV_PARKED.load(Ordering::SeqCst) > 0 && fionread(srv_fd) == 0;
     RECV_MAX_LEN.store(0, Ordering::SeqCst);
     RECV_LOG_FD.store(srv_fd, Ordering::SeqCst);
     let th = std::thread::spawn(move || {
@@ -230,15 +286,19 @@ pub fn conn(arg: &str) -> String {
                 std::thread::sleep(Duration::from_micros(200));
             }
         } else if step == "r" {
-            match read_response(&mut client, &mut pending, Duration::from_millis(1500)) {
+            match read_response_idle(&mut client, &mut pending, Duration::from_millis(6000), &idle) {
                 Ok(Some((st, close, body))) => out.push(format!("R{}:{}:{}", st, close as u8, hex(&body))),
                 Ok(None) => out.push("EOF".into()),
                 Err(e) => out.push(e.into()),
             }
+        } else if let Some(ms) = step.strip_prefix("w:") {
+            // the client stalls (longer than the server's read time-out when the case sets one)
+            std::thread::sleep(Duration::from_millis(ms.parse().unwrap_or(0)));
         } else if step == "c" {
+            client_shut.store(true, Ordering::SeqCst);
             let _ = client.shutdown(std::net::Shutdown::Write);
         } else if step == "e" {
-            match read_response(&mut client, &mut pending, Duration::from_millis(400)) {
+            match read_response_idle(&mut client, &mut pending, Duration::from_millis(if rto > 0 { 400 } else { 4000 }), &idle) {
                 Ok(None) => out.push("EOF".into()),
                 Ok(Some((st, close, body))) => out.push(format!("R{}:{}:{}", st, close as u8, hex(&body))),
                 Err("HANG") => out.push("OPEN".into()),
